@@ -40,7 +40,15 @@ def reproduce_steps(ctx, mode, rejects, cap=40):
         re_file = os.path.join(d, "re.000.ndjson")
         r = ctx.tlc("StepTrace", env=dict(VERIF_TRACE=re_file, VERIF_MODE=mode, VERIF_EXPLAIN="1"))
         if not r["rejects"]:
-            raise ToolError("rejection of %s did not reproduce when re-executed alone" % sig)
+            src_shard, src_idx = next((sh, i) for sh, i in rejects if read_line(sh, i) == e)
+            payload = rerun_in_context(ctx, src_shard, src_idx, mode, "StepTrace", n) if n <= 4 else None
+            if payload is None and n > 4:
+                continue
+            if payload is None:
+                raise ToolError("rejection of %s reproduced neither alone nor when the whole generation was repeated" % sig)
+            ctx.violation(sig + " [only after the preceding cases of the same process]",
+                          "step reproduced by repeating the deterministic generation (seed %s), not when executed alone - the code under test carries state over between simulators" % payload["seed"], payload)
+            continue
         e2 = read_line(re_file, 1)
         expect = [p for p in r["prints"] if p[0] == "EXPECT"]
         what = "executing %s at pc=%d on M=%d RL=%d WL=%d P=%d: observed queue %s diff %s%s" % (
@@ -55,6 +63,7 @@ def gen_steps(ctx, args, name="steps"):
     d = ctx.sub(name)
     prefix = os.path.join(d, "s")
     stats = ctx.harness_json(["steps", "-out", prefix, "-seed", ctx.seed] + args)
+    register_shards(shard_files(prefix), "steps", args, ctx.seed)
     return shard_files(prefix), stats
 
 
@@ -210,7 +219,15 @@ def reproduce_battles(ctx, mode, rejects, reports=False, cap=25, module="BattleT
         if True:
             r = ctx.tlc(module, cfg="BattleTrace.cfg", env=dict(VERIF_TRACE=re_file, VERIF_MODE=mode))
             if not r["rejects"]:
-                raise ToolError("rejection (%s) did not reproduce when the battle was re-executed alone" % sig)
+                src = [(sh, i) for sh, i in rejects if trace_of(sh, i)[0] == tr]
+                payload = rerun_in_context(ctx, src[0][0], src[0][1], mode, module, n, cfg="BattleTrace.cfg") if (src and n <= 4) else None
+                if payload is None and n > 4:
+                    continue
+                if payload is None:
+                    raise ToolError("rejection (%s) reproduced neither alone nor when the whole generation was repeated" % sig)
+                ctx.violation(sig + " [only after the preceding cases of the same process]",
+                              "battle event reproduced by repeating the deterministic generation (seed %s), not when the battle is executed alone - the code under test carries state over between simulators" % payload["seed"], payload)
+                continue
             re_tr = read_lines(re_file)
             bad = re_tr[r["rejects"][0] - 1]
         else:
@@ -227,6 +244,7 @@ def gen_battles(ctx, cmd, args, name):
     d = ctx.sub(name)
     prefix = os.path.join(d, "b")
     stats = ctx.harness_json([cmd, "-out", prefix, "-seed", ctx.seed] + args)
+    register_shards(shard_files(prefix), cmd, args, ctx.seed)
     return shard_files(prefix), stats
 
 
